@@ -11,6 +11,19 @@
 //!        model). In the result the "time signed" field of a response TSIG record (last record,
 //!        empty MAC — no keys are configured in this group) is replaced by `time − now`.
 //!        Spec column `?` = anything but a panic.
+//!   srvh <payload> <catalog> <ne> <nx> <er> <window> <slip> <v4len> <v6len> <size> <steps>
+//!        one whole HISTORY against one server with response rate limiting enabled
+//!        (→ `resp;resp;…`, one `hex|none|panic` per request step). steps are `;`-separated:
+//!          s<secs>                                   the hook `verif_rrl_shift(secs)`
+//!          q,<src>,<u|t>,<reqhex>,<rcode>,<cands>    one request; recorded inputs of the model
+//!             (DESIGN §3.5): `rcode` = extended RCODE of the same request on a twin server without
+//!             RRL (only used to key the probes), `cands` = `/`-separated `namehex:idx:dest:qhash`:
+//!             the probe `verif_rrl_probe(src, name, rcode)` of the table's RandomState for every
+//!             name the handler could hash (QNAME, root, every `*…` suffix of an owner in the
+//!             catalog). The model decides itself which name is hashed.
+//!        The model runs on times (sum of shifts)·10⁹ ns; a history whose real duration exceeds
+//!        0.4 s is discarded (the whole seconds since a bucket's last refill are then exactly the
+//!        shifts). slip ∈ {0, 1} only (slip ≥ 2 is random: C26). No TSIG-signed responses here.
 //!
 //! Streams: exhaustive short messages; zones with records of type 41/250/10/0/65535; malformed
 //! RDATA of every name-bearing type; names of 255 octets and 63-octet labels in zone data and
@@ -23,7 +36,9 @@ use crate::common::*;
 use crate::dns;
 use crate::g_server::{self, emit_pair, enc_catalog, make_server, dec_catalog, Cat, Rec, ZoneCfg};
 use quandary::server::{ReceivedInfo, Response, RrlParams, Server, Transport};
-use std::net::{IpAddr, Ipv4Addr};
+use std::net::{IpAddr, Ipv4Addr, Ipv6Addr};
+use quandary::name::Name;
+use quandary::message::ExtendedRcode;
 
 fn lname(labels: &[&[u8]]) -> Vec<u8> {
     dns::name_from_labels(&labels.iter().map(|l| l.to_vec()).collect::<Vec<_>>())
@@ -129,6 +144,23 @@ pub fn run(op: &str, a: &[&str]) -> Option<String> {
             Some(handle_q(&server, &req, *tr == "t").1)
         }
         ("audq", [_payload, _cat, _req, _udp, _tcp]) => Some("ok".into()),
+        ("srvh", [payload, cat, ne, nx, er, w, slip, v4, v6, size, steps]) => {
+            let (Some(zs), Ok(payload)) = (dec_catalog(cat), payload.parse::<u16>()) else { return Some("bad-op".into()) };
+            let p: Option<Vec<u64>> = [ne, nx, er, w, slip, v4, v6, size].iter().map(|x| x.parse::<u64>().ok()).collect();
+            let Some(p) = p else { return Some("bad-op".into()) };
+            let mut hs = Vec::new();
+            for st in steps.split(';') {
+                if let Some(r) = st.strip_prefix('s') { hs.push(HStep::Shift(r.parse().ok()?)); continue; }
+                let f: Vec<&str> = st.split(',').collect();
+                if f.len() < 4 || f[0] != "q" { return Some("bad-op".into()); }
+                hs.push(HStep::Q { src: src_unhex(f[1])?, udp: f[2] == "u", req: unhex(f[3])? });
+            }
+            // replays retry a few times if the clock runs away
+            for _ in 0..5 {
+                if let Some((_, res)) = exec_history(&zs, payload, &p, &hs) { return Some(res); }
+            }
+            Some("clock".into())
+        }
         _ => None,
     }
 }
@@ -415,7 +447,186 @@ fn short_messages(rng: &mut Rng, thorough: bool, em: &mut Emitter, zs: &[ZoneCfg
     }
 }
 
+// ------------------------------------------------------------------------------------------
+// histories against one RRL-enabled server (op `srvh`)
+// ------------------------------------------------------------------------------------------
+
+#[derive(Clone, Debug)]
+enum HStep { Shift(u64), Q { src: IpAddr, udp: bool, req: Vec<u8> } }
+
+fn src_hex(a: &IpAddr) -> String {
+    match a { IpAddr::V4(v) => format!("{:08x}", u32::from(*v)), IpAddr::V6(v) => format!("{:032x}", u128::from(*v)) }
+}
+
+fn src_unhex(s: &str) -> Option<IpAddr> {
+    if s.len() == 8 { Some(IpAddr::V4(Ipv4Addr::from(u32::from_str_radix(s, 16).ok()?))) }
+    else if s.len() == 32 { Some(IpAddr::V6(Ipv6Addr::from(u128::from_str_radix(s, 16).ok()?))) }
+    else { None }
+}
+
+/// "IPv4-mapped IPv6 counts as IPv4" (for the probe only; the server does its own canonicalisation)
+fn canonical(a: IpAddr) -> IpAddr {
+    match a {
+        IpAddr::V6(v) => { let n = u128::from(v); if n >> 32 == 0xffff { IpAddr::V4(Ipv4Addr::from(n as u32)) } else { a } }
+        _ => a,
+    }
+}
+
+fn ext_rcode_of(resp: &[u8]) -> u16 {
+    let low = (resp.get(3).copied().unwrap_or(0) & 0x0f) as u16;
+    match dns::decode_message(resp) {
+        Some(d) => match d.ar.iter().find(|r| r.ty == 41) { Some(o) => low | (((o.ttl >> 24) as u16) << 4), None => low },
+        None => low,
+    }
+}
+
+/// every name the handler could hash for this request: QNAME, root, every `*…` suffix of an owner
+fn candidate_names(zs: &[ZoneCfg], req: &[u8]) -> Vec<Vec<u8>> {
+    let mut v: Vec<Vec<u8>> = vec![vec![0]];
+    if req.len() > 12 { if let Some((w, _)) = dns::decode_name(req, 12) { v.push(w); } }
+    for z in zs { for r in &z.recs {
+        let mut p = 0usize;
+        while p < r.owner.len() && r.owner[p] != 0 {
+            let l = r.owner[p] as usize;
+            if l == 1 && r.owner.get(p + 1) == Some(&b'*') { v.push(r.owner[p..].to_vec()); }
+            p += 1 + l;
+        }
+    }}
+    v.sort(); v.dedup();
+    v
+}
+
+/// run a history; `None` = the real clock advanced too far. Returns (steps text, results text).
+fn exec_history(zs: &[ZoneCfg], payload: u16, p: &[u64], steps: &[HStep]) -> Option<(String, String)> {
+    let reference = make_server(zs, payload)?;
+    let mut server = make_server(zs, payload)?;
+    let mut params = RrlParams::new(p[0] as u32, p[1] as u32, p[2] as u32, p[3] as u32).ok()?;
+    params.set_slip(p[4] as usize);
+    params.set_ipv4_prefix_len(p[5] as u8).ok()?;
+    params.set_ipv6_prefix_len(p[6] as u8).ok()?;
+    params.set_size(p[7] as usize).ok()?;
+    let t_start = std::time::Instant::now();
+    server.set_rrl_params(Some(params));
+    let mut parts = Vec::new();
+    let mut res = Vec::new();
+    let mut buf = vec![0u8; 65535];
+    for st in steps {
+        match st {
+            HStep::Shift(secs) => { server.verif_rrl_shift(*secs); parts.push(format!("s{}", secs)); }
+            HStep::Q { src, udp, req } => {
+                let tr = if *udp { Transport::Udp } else { Transport::Tcp };
+                let rcode = match reference.handle_message(req, ReceivedInfo::new(*src, tr), &mut buf[..]) {
+                    Response::Single(n) => ext_rcode_of(&buf[..n]),
+                    Response::None => 0,
+                };
+                let mut cands = Vec::new();
+                for w in candidate_names(zs, req) {
+                    if let Ok(n) = Name::try_from_uncompressed_all(&w[..]) {
+                        let (idx, dest, qh) = server.verif_rrl_probe(canonical(*src), &n, ExtendedRcode::from(rcode))?;
+                        cands.push(format!("{}:{}:{}:{}", hex(&w), idx, dest, qh));
+                    }
+                }
+                let t0 = unix_now();
+                let got = std::panic::catch_unwind(std::panic::AssertUnwindSafe(|| {
+                    match server.handle_message(req, ReceivedInfo::new(*src, tr), &mut buf[..]) {
+                        Response::Single(n) => Some(n),
+                        Response::None => None,
+                    }
+                }));
+                // the one wall-clock field of a response (time signed of an unsigned TSIG error) is made relative
+                if unix_now() != t0 { return None; }
+                res.push(match got { Ok(Some(n)) => hex(&mask_time(&buf[..n], t0)), Ok(None) => "none".into(), Err(_) => "panic".into() });
+                parts.push(format!("q,{},{},{},{},{}", src_hex(src), if *udp { "u" } else { "t" }, hex(req), rcode, cands.join("/")));
+            }
+        }
+    }
+    if t_start.elapsed() > std::time::Duration::from_millis(400) { return None; }
+    Some((parts.join(";"), res.join(";")))
+}
+
+/// a zone with wildcards at several depths, an empty non-terminal `*`, a delegation, CNAMEs
+fn wild_zone(rng: &mut Rng) -> ZoneCfg {
+    let apex = lname(&[b"w"]);
+    let mut recs = vec![
+        Rec { owner: apex.clone(), ty: 6, ttl: 60, rdata: soa_rdata(&apex, 30) },
+        Rec { owner: apex.clone(), ty: 2, ttl: 60, rdata: prefixed(b"ns", &apex) },
+        Rec { owner: prefixed(b"ns", &apex), ty: 1, ttl: 60, rdata: vec![192, 0, 2, 1] },
+        Rec { owner: prefixed(b"*", &apex), ty: 1, ttl: 60, rdata: vec![192, 0, 2, 9] },
+        Rec { owner: prefixed(b"*", &apex), ty: 16, ttl: 60, rdata: vec![1, b'x'] },
+        Rec { owner: prefixed(b"*", &prefixed(b"sub", &apex)), ty: 15, ttl: 60, rdata: { let mut v = vec![0, 1]; v.extend(prefixed(b"ns", &apex)); v } },
+        Rec { owner: prefixed(b"a", &prefixed(b"*", &prefixed(b"ent", &apex))), ty: 1, ttl: 60, rdata: vec![192, 0, 2, 7] },
+        Rec { owner: prefixed(b"host", &apex), ty: 1, ttl: 60, rdata: vec![192, 0, 2, 2] },
+        Rec { owner: prefixed(b"al", &apex), ty: 5, ttl: 60, rdata: prefixed(b"zz", &apex) },
+        Rec { owner: prefixed(b"deleg", &apex), ty: 2, ttl: 60, rdata: prefixed(b"ns", &prefixed(b"deleg", &apex)) },
+        Rec { owner: prefixed(b"ns", &prefixed(b"deleg", &apex)), ty: 1, ttl: 60, rdata: vec![192, 0, 2, 3] },
+    ];
+    if rng.chance(1, 2) { recs.push(Rec { owner: prefixed(b"*", &apex), ty: 5, ttl: 60, rdata: prefixed(b"host", &apex) }); recs.retain(|r| !(r.owner == prefixed(b"*", &apex) && r.ty != 5)); }
+    ZoneCfg { kind: 'L', apex, class: 1, glue_wide: false, recs }
+}
+
+fn gen_histories(rng: &mut Rng, thorough: bool, em: &mut Emitter) {
+    let n = if thorough { 1500 } else { 160 };
+    let d17 = {
+        let mut m = dns::header(0x1234, 0x0100, 0, 0, 0, 1);
+        m.extend(tsig_rr(&long_name(255, &[0], b'k'), &long_name(220, &[0], b'a'), 0, 1_700_000_000, 7));
+        m
+    };
+    for _ in 0..n {
+        let zs: Vec<ZoneCfg> = match rng.below(4) { 0 => vec![odd_zone(rng)], 1 => vec![wild_zone(rng), odd_zone(rng)], _ => vec![wild_zone(rng)] };
+        let payload = *rng.pick(&[512u16, 1232, 4096]);
+        let rate = rng.range(1, 3) as u64;
+        let p: Vec<u64> = vec![rate, rng.range(1, 2) as u64, rng.range(1, 2) as u64, rng.range(1, 2) as u64, rng.below(2) as u64,
+            *rng.pick(&[24u64, 32, 8, 0]), *rng.pick(&[56u64, 64, 0]), *rng.pick(&[1u64, 2, 3, 17, 1009, 65537])];
+        let apex = zs[0].apex.clone();
+        let srcs: Vec<IpAddr> = vec![
+            IpAddr::V4(Ipv4Addr::new(192, 0, 2, 1)), IpAddr::V4(Ipv4Addr::new(192, 0, 2, 77)), IpAddr::V4(Ipv4Addr::new(198, 51, 100, 5)),
+            IpAddr::V6(Ipv6Addr::from(0x2001_0db8_0000_0000_0000_0000_0000_0001u128)),
+            IpAddr::V6(Ipv6Addr::from(0x0000_0000_0000_0000_0000_ffff_c000_0201u128)), // ::ffff:192.0.2.1
+        ];
+        // a small pool of requests; histories repeat them so that streams get limited
+        let mut pool: Vec<Vec<u8>> = Vec::new();
+        let names: Vec<Vec<u8>> = vec![
+            prefixed(b"host", &apex), prefixed(b"x1", &apex), prefixed(b"x2", &apex), prefixed(b"X1", &apex),
+            prefixed(b"q", &prefixed(b"sub", &apex)), prefixed(b"r", &prefixed(b"sub", &apex)),
+            prefixed(b"a", &prefixed(b"b", &prefixed(b"ent", &apex))), prefixed(b"k", &prefixed(b"ent", &apex)),
+            prefixed(b"al", &apex), prefixed(b"u", &prefixed(b"deleg", &apex)), apex.clone(), lname(&[b"nowhere"]), prefixed(b"x", &lname(&[b"odd"])),
+        ];
+        for _ in 0..rng.range(2, 5) {
+            let qn = rng.pick(&names).clone();
+            let qt = *rng.pick(&[1u16, 1, 16, 15, 255, 28, 5, 41]);
+            let edns = if rng.chance(1, 3) { Some(*rng.pick(&[512u16, 1232, 4096])) } else { None };
+            pool.push(query(rng.next() as u16, &qn, qt, 1, edns));
+        }
+        if rng.chance(1, 4) { pool.push(d17.clone()); }
+        if rng.chance(1, 3) {
+            // a question that matches a wildcard + a TSIG record too long to answer within 512 octets:
+            // RFC 8945 §5.3 truncation (NOERROR, AA clear) — the name hashed is QNAME, not the wildcard
+            let mut m = query(rng.next() as u16, &prefixed(b"x1", &apex), 1, 1, None);
+            m[11] = 1;
+            m.extend(tsig_rr(&long_name(255, &[0], b'k'), &long_name(220, &[0], b'a'), 0, 1_700_000_000, 7));
+            pool.push(m);
+        }
+        if rng.chance(1, 4) { let mut m = pool[0].clone(); m[2] |= 0x28; pool.push(m); }          // opcode 5
+        if rng.chance(1, 4) { let mut m = pool[0].clone(); let k = m.len(); m.truncate(k - 1); pool.push(m); } // FORMERR
+        if rng.chance(1, 5) { let mut m = pool[0].clone(); m.push(0); pool.push(m); }                // trailing octet
+        if rng.chance(1, 6) { pool.push(dns::header(7, 0x0100, 0, 0, 0, 0)); }                       // no question
+        if rng.chance(1, 8) { let mut m = pool[0].clone(); dns::mutate(rng, &mut m); pool.push(m); }
+        let mut steps = Vec::new();
+        let len = rng.range(6, if thorough { 24 } else { 14 });
+        for _ in 0..len {
+            if rng.chance(1, 4) { steps.push(HStep::Shift(*rng.pick(&[0u64, 1, 1, 2, 3, 10, 4294967296]))); }
+            let src = if rng.chance(2, 3) { srcs[0] } else { *rng.pick(&srcs) };
+            steps.push(HStep::Q { src, udp: !rng.chance(1, 8), req: rng.pick(&pool).clone() });
+        }
+        if let Some((text, res)) = exec_history(&zs, payload, &p, &steps) {
+            let ps: Vec<String> = p.iter().map(|x| x.to_string()).collect();
+            em.emit(&format!("srvh {} {} {} {}", payload, enc_catalog(&zs), ps.join(" "), text), &res);
+        }
+    }
+}
+
 pub fn gen(rng: &mut Rng, thorough: bool, em: &mut Emitter) {
+    gen_histories(rng, thorough, em);
     let k = if thorough { 12 } else { 1 };
     // 1. exhaustive short messages against a small catalog
     {
